@@ -856,16 +856,31 @@ def sweep_jobs(tier):
                     continue
                 for k in range(ln + 1):
                     jobs.append((name, spec, cfg, target, k))
+        if tier == "thorough" and name == "imports-chain":
+            # the other writer of the same file: `pglr compile` interrupted at every
+            # byte, followed by a Parser whose options match the compiled table
+            ccfg = compile_cfg(True, True)
+            want = c.cold.get({**spec["versions"][0],
+                               **({"g.pge": spec["pge"]} if spec["pge"] else {})},
+                              ccfg, (spec["recognizers"] or [{}])[0], [])
+            for k in range((want.get("pgc_len") or -1) + 1):
+                jobs.append((name + "+compile", spec, {"kind": "compile"}, ".pgc", k))
     return jobs
 
 
 def sweep_one(job, kind="crash"):
     name, spec, cfg, target, k = job
-    ops = [
-        {"op": "construct", "cfg": cfg, "dt": 5,
-         "fault": {"kind": kind, "target": target, "offset": k}},
-        {"op": "construct", "cfg": cfg, "dt": 5},
-    ]
+    fault = {"kind": kind, "target": target, "offset": k}
+    if cfg["kind"] == "compile":
+        ops = [
+            {"op": "compile", "ps": True, "pse": True, "dt": 5, "fault": fault},
+            {"op": "construct", "cfg": {"kind": "lr", "opts": {}}, "dt": 5},
+        ]
+    else:
+        ops = [
+            {"op": "construct", "cfg": cfg, "dt": 5, "fault": fault},
+            {"op": "construct", "cfg": cfg, "dt": 5},
+        ]
     stats = Stats()
     records, divs, _ = run_history(spec, ops, stats)
     bad = [d for d in divs if not d["attributed"]]
